@@ -209,12 +209,34 @@ func (fc *FuncCtx) execCall(fr *Frame, st *State, com *ssa.CallCommon, ins ssa.I
 		return fc.inline(fr, st, clo.Fn, args, clo.Bindings, ins.Pos())
 	}
 	spec := v.specFor(key)
+	if spec == nil && !com.IsInvoke() {
+		if ds := fc.dynCallSpec(key); ds != nil {
+			// `call VAR contract KEY` of the caller's contract: the function value is assumed to satisfy KEY; call-site
+			// clauses match the variable name as for any other dynamic call
+			return fc.contractCall(fr, st, com, strings.TrimPrefix(key, "dynamic:"), ds, args, ins)
+		}
+	}
+	if spec != nil && spec.Model != "" {
+		// `model F`: the call executes the body of the Go function F in place (an assumed executable model of a callee whose
+		// body is not loaded); loops and closures inside it are treated exactly as in an `inline` callee
+		mf := fc.modelFunc(key, spec, len(args))
+		v.inlined[key+" (model "+spec.Model+")"] = true
+		if spec.Lib {
+			v.usedLibSpecs[key] = true
+		}
+		return fc.inline(fr, st, mf, args, nil, ins.Pos())
+	}
 	if spec != nil && spec.Inline {
 		if callee == nil || len(callee.Blocks) == 0 {
 			unsupported("inline %s: no body available (package not loaded with syntax?)", key)
 		}
 		v.inlined[key] = true
 		return fc.inline(fr, st, callee, args, nil, ins.Pos())
+	}
+	// a closure handed to code that is not executed in place (contract / opaque call) may be run by it any number of times:
+	// the captured variables it can write are unknown afterwards
+	if spec == nil || !(spec.Pure || spec.Def != nil) {
+		fc.havocCaptured(st, args, 0)
 	}
 	if spec == nil || spec.Opaque {
 		return fc.opaqueCall(fr, st, com, key, args, ins)
@@ -223,6 +245,46 @@ func (fc *FuncCtx) execCall(fr *Frame, st *State, com *ssa.CallCommon, ins ssa.I
 		return fc.dispatchCall(fr, st, com, key, spec, args, ins)
 	}
 	return fc.contractCall(fr, st, com, key, spec, args, ins)
+}
+
+// havocCaptured forgets the value of every captured variable that a closure among args (or a closure it captures) may write:
+// any use of the free variable other than a plain load counts as a write.
+func (fc *FuncCtx) havocCaptured(st *State, args []Val, depth int) {
+	if depth > 4 {
+		return
+	}
+	for _, a := range args {
+		if a.Clo == nil {
+			continue
+		}
+		fn := a.Clo.Fn
+		for i, b := range a.Clo.Bindings {
+			if b.Clo != nil {
+				fc.havocCaptured(st, []Val{b}, depth+1)
+				continue
+			}
+			if i >= len(fn.FreeVars) || b.Loc == nil || b.Loc.Root != nil {
+				continue
+			}
+			written := false
+			if refs := fn.FreeVars[i].Referrers(); refs != nil {
+				for _, r := range *refs {
+					switch t := r.(type) {
+					case *ssa.DebugRef:
+					case *ssa.UnOp:
+						if t.Op != token.MUL {
+							written = true
+						}
+					default:
+						written = true
+					}
+				}
+			}
+			if written {
+				fc.v.store(st, b.Loc, fc.v.c.Fresh("havoc_captured", b.Loc.Sort))
+			}
+		}
+	}
 }
 
 // dispatchCall: a call through an interface method whose contract is `dispatch (T1).M, (T2).M, ...`. The call site must
@@ -321,6 +383,20 @@ func (fc *FuncCtx) dispatchCall(fr *Frame, st *State, com *ssa.CallCommon, key s
 	return merge(func(i int) Val { return vals[i] })
 }
 
+// modelFunc resolves the Go function named by a `model` clause.
+func (fc *FuncCtx) modelFunc(key string, spec *FuncSpec, nargs int) *ssa.Function {
+	v := fc.v
+	mf := v.findFunction(spec.Model)
+	if mf == nil || len(mf.Blocks) == 0 {
+		unsupported("model %s of %s: function not found in the loaded packages (or it has no body)", spec.Model, key)
+	}
+	if len(mf.Params) != nargs {
+		unsupported("model %s of %s: %d parameters for %d arguments (receiver first)", spec.Model, key, len(mf.Params), nargs)
+	}
+	v.notes[fmt.Sprintf("%s: calls execute the assumed model %s", key, spec.Model)] = true
+	return mf
+}
+
 func (fc *FuncCtx) inline(fr *Frame, st *State, fn *ssa.Function, args []Val, bindings []Val, pos token.Pos) Val {
 	if fc.depth > 12 {
 		unsupported("inline depth exceeded at %s", fn.Name())
@@ -350,6 +426,20 @@ func (fc *FuncCtx) inline(fr *Frame, st *State, fn *ssa.Function, args []Val, bi
 	}
 	final, results := fc.mergeReturns(fn, rets)
 	*st = *final
+	// Go maps are references: updates the inlined body makes through a map-typed parameter are visible to the caller.
+	// The map model binds a map value to the variable it was loaded from, so the final value of the callee's parameter
+	// variable is written back to the location the argument was loaded from.
+	for i, cell := range mapParamsUpdated(fn) {
+		if i >= len(args) {
+			continue
+		}
+		if args[i].Origin == nil {
+			unsupported("inline %s: map argument %d is updated by the callee but has no variable origin in the caller", fn.Name(), i)
+		}
+		if t, ok := st.cells[cell]; ok && !st.dead {
+			fc.v.store(st, args[i].Origin, t)
+		}
+	}
 	switch len(results) {
 	case 0:
 		return Val{}
@@ -357,6 +447,62 @@ func (fc *FuncCtx) inline(fr *Frame, st *State, fn *ssa.Function, args []Val, bi
 		return results[0]
 	}
 	return Val{Tuple: results}
+}
+
+// mapParamsUpdated: map-typed parameters of fn whose map is updated (m[k] = v, delete(m, k)) in fn's own body, with the
+// local cell go/ssa (NaiveForm) keeps the parameter in. A parameter that is also reassigned is not supported.
+func mapParamsUpdated(fn *ssa.Function) map[int]*ssa.Alloc {
+	out := map[int]*ssa.Alloc{}
+	for i, p := range fn.Params {
+		if _, isMap := p.Type().Underlying().(*types.Map); !isMap {
+			continue
+		}
+		var cell *ssa.Alloc
+		stores := 0
+		for _, b := range fn.Blocks {
+			for _, ins := range b.Instrs {
+				if s, ok := ins.(*ssa.Store); ok && s.Val == ssa.Value(p) {
+					if a, ok := s.Addr.(*ssa.Alloc); ok {
+						cell = a
+					}
+				}
+			}
+		}
+		if cell == nil {
+			continue
+		}
+		updated := false
+		fromCell := func(x ssa.Value) bool {
+			u, ok := x.(*ssa.UnOp)
+			return ok && u.Op == token.MUL && u.X == ssa.Value(cell)
+		}
+		for _, b := range fn.Blocks {
+			for _, ins := range b.Instrs {
+				switch t := ins.(type) {
+				case *ssa.Store:
+					if t.Addr == ssa.Value(cell) {
+						stores++
+					}
+				case *ssa.MapUpdate:
+					if fromCell(t.Map) {
+						updated = true
+					}
+				case ssa.CallInstruction:
+					if bi, ok := t.Common().Value.(*ssa.Builtin); ok && bi.Name() == "delete" && fromCell(t.Common().Args[0]) {
+						updated = true
+					}
+				}
+			}
+		}
+		if !updated {
+			continue
+		}
+		if stores != 1 {
+			unsupported("%s: map parameter %s is both updated and reassigned", fn.Name(), p.Name())
+		}
+		out[i] = cell
+	}
+	return out
 }
 
 // ------------------------------------------------------------ builtins
@@ -569,6 +715,28 @@ func (fc *FuncCtx) freshResults(st *State, com *ssa.CallCommon, key string) Val 
 	return Val{Tuple: tup}
 }
 
+// dynCallSpec: the contract that the verified function's `call VAR contract KEY` clause assigns to calls through the
+// function-typed variable VAR (nil if there is none). Recorded in the evidence notes: it is an assumption.
+func (fc *FuncCtx) dynCallSpec(key string) *FuncSpec {
+	if fc.spec == nil || !strings.HasPrefix(key, "dynamic:") {
+		return nil
+	}
+	name := strings.TrimPrefix(key, "dynamic:")
+	target, ok := fc.spec.CallSpec[name]
+	if !ok {
+		return nil
+	}
+	ts := fc.v.specFor(target)
+	if ts == nil || ts.Inline || ts.Opaque || len(ts.Dispatch) > 0 || ts.Pure || ts.Def != nil {
+		unsupported("call %s contract %s: no plain contract with that key", name, target)
+	}
+	if ts.Lib {
+		fc.v.usedLibSpecs[target] = true
+	}
+	fc.v.notes[fmt.Sprintf("%s: calls through the function value %s are assumed to satisfy the contract of %s", fc.key, name, target)] = true
+	return ts
+}
+
 func (fc *FuncCtx) opaqueCall(fr *Frame, st *State, com *ssa.CallCommon, key string, args []Val, ins ssa.Instruction) Val {
 	v := fc.v
 	c := v.c
@@ -599,12 +767,28 @@ func (fc *FuncCtx) opaqueCall(fr *Frame, st *State, com *ssa.CallCommon, key str
 		st.globals[w] = c.Fresh("havoc_"+w, v.worlds[w])
 	}
 	for i, a := range fc.allArgs(com) {
-		for _, hk := range fc.reachableHeaps(a.Type()) {
+		for _, hk := range fc.reachableHeaps(argStaticType(a)) {
 			st.globals[hk] = c.Fresh("havoc_"+hk, v.globalSort(hk))
 		}
 		if args[i].Loc != nil && args[i].Loc.Root == nil && !(args[i].Loc.Ref != nil && len(args[i].Loc.Path) == 0) {
 			// address of a local / interior pointer escapes to unknown code: havoc the addressed value
 			v.store(st, args[i].Loc, c.Fresh("havoc_arg", args[i].Loc.Sort))
+		}
+	}
+	// a pointer boxed into an interface argument (abi.Arguments.Copy(&input, ...)) reaches the unknown code as well
+	for _, a := range fc.allArgs(com) {
+		mi, ok := a.(*ssa.MakeInterface)
+		if !ok {
+			continue
+		}
+		if _, isPtr := mi.X.Type().Underlying().(*types.Pointer); !isPtr {
+			continue
+		}
+		for _, hk := range fc.reachableHeaps(mi.X.Type()) {
+			st.globals[hk] = c.Fresh("havoc_"+hk, v.globalSort(hk))
+		}
+		if in := fc.valOf(fr, mi.X); in.Loc != nil && in.Loc.Root == nil && !(in.Loc.Ref != nil && len(in.Loc.Path) == 0) {
+			v.store(st, in.Loc, c.Fresh("havoc_arg", in.Loc.Sort))
 		}
 	}
 	old := v.getGlobal(st, "$alloc")
@@ -634,6 +818,16 @@ func (fc *FuncCtx) opaqueCall(fr *Frame, st *State, com *ssa.CallCommon, key str
 		fc.callResults[fmt.Sprintf("%s#%d", cshort, ord)] = rsv
 	}
 	return res
+}
+
+// argStaticType: the type whose reachable heaps an unknown callee may write through argument a. A pointer boxed into an
+// interface value right at the call (`f(&x)` with an interface{} parameter, e.g. abi.UnpackIntoInterface(&out, ...)) is
+// still a pointer the callee can write through.
+func argStaticType(a ssa.Value) types.Type {
+	if mi, ok := a.(*ssa.MakeInterface); ok {
+		return mi.X.Type()
+	}
+	return a.Type()
 }
 
 // ------------------------------------------------------------ contract calls
@@ -673,7 +867,7 @@ func (fc *FuncCtx) argTerm(st *State, a Val, borrow *[]func(post *State)) *Term 
 func (fc *FuncCtx) contractCall(fr *Frame, st *State, com *ssa.CallCommon, key string, spec *FuncSpec, args []Val, ins ssa.Instruction) Val {
 	v := fc.v
 	c := v.c
-	if spec.Lib {
+	if _, own := v.specs[key]; spec.Lib && own {
 		v.usedLibSpecs[key] = true
 	}
 	names, tys := fc.calleeParams(com, spec)
@@ -805,7 +999,14 @@ func (fc *FuncCtx) contractCall(fr *Frame, st *State, com *ssa.CallCommon, key s
 				unsupported("modifies *%s of %s: not a pointer", m.Args[0], key)
 			}
 			hk := v.heapKeyFor(el)
-			st.globals[hk] = c.Store(v.getGlobal(st, hk), pv.T, mkFresh("mod_"+sanitize(cshort), v.tm.SortOf(el)))
+			oldHeap := v.getGlobal(st, hk)
+			nh := c.Store(oldHeap, pv.T, mkFresh("mod_"+sanitize(cshort), v.tm.SortOf(el)))
+			if m.Args[0].Kind != "id" {
+				// nothing can be written through a nil pointer (a callee `modifies *p.f` whose p.f may be nil); a bare pointer
+				// parameter `*p` is kept as a plain store (callee contracts require p != nil)
+				nh = c.Ite(c.Eq(pv.T, c.Int(0)), oldHeap, nh)
+			}
+			st.globals[hk] = nh
 			touched = append(touched, hk)
 		case m.Kind == "call" && m.Name == "elems" && len(m.Args) == 1 && m.Args[0].Kind == "id":
 			pn := m.Args[0].Name
